@@ -31,8 +31,11 @@ ValueLists == {<<v>> : v \in Values}
            \cup {<<v, w>> : v \in {MkVal(<<s>> \o m) : s \in Bit, m \in {<<>>, <<1>>, Ones(5), OneBit(62)}},
                             w \in {MkVal(<<s>> \o m) : s \in Bit, m \in {<<>>, <<1>>, Ones(4), Ones(62)}}}
 
+AddMags == {Trim(b) : b \in SeqsUpTo(Bit, 5)} \cup {Ones(29), OneBit(30)}
+AddVals == {MkVal(<<s>> \o m) : s \in Bit, m \in AddMags}
 Universe == {[op |-> "dec", ds |-> d, vals |-> <<>>] : d \in DigitUniverse}
        \cup {[op |-> "enc", ds |-> <<>>, vals |-> vs] : vs \in ValueLists}
+       \cup {[op |-> "add", ds |-> <<>>, vals |-> <<a, b>>] : a \in AddVals, b \in AddVals}
 
 VARIABLES inp, pos, st
 vars == <<inp, pos, st>>
@@ -46,7 +49,7 @@ Digit == /\ inp.op = "dec" /\ pos < Len(inp.ds)
 Next == Digit
 Spec == Init /\ [][Next]_vars
 
-Done == inp.op = "enc" \/ pos = Len(inp.ds)
+Done == inp.op \in {"enc", "add"} \/ pos = Len(inp.ds)
 
 \* machine = declarative reading
 MachineAgrees ==
@@ -73,5 +76,11 @@ RoundTrip ==
 SmallInts == (inp.op = "enc") =>
         \A i \in DOMAIN inp.vals : Small(inp.vals[i]) => FromInt(ToInt(inp.vals[i])) = inp.vals[i]
 
-EmitCase == Done => PrintT("CASE " \o ToJson(inp))
+\* bit-list arithmetic agrees with the integers wherever both are defined
+WordArithmetic == (inp.op = "add") =>
+    LET a == inp.vals[1]  b == inp.vals[2]  r == AddV(a, b) IN
+    /\ IsValue(r)
+    /\ ((Len(a.bits) <= 29 /\ Len(b.bits) <= 29) => ToInt(r) = ToInt(a) + ToInt(b))
+    /\ SubV(r, b) = a /\ AddV(b, a) = r
+EmitCase == (Done /\ inp.op # "add") => PrintT("CASE " \o ToJson(inp))
 =============================================================================
